@@ -491,6 +491,9 @@ def inverses(p):
                     sh.set_rng(ChoiceRng(c))
                     cx = dict(ctx)
                     out = sh(pt.clone(), ctx=cx)
+                    # the same object serves a second sample before the first record is read (a batch of contexts is collated
+                    # after all its samples were produced): the first record must still undo the first output
+                    sh(pt.clone(), ctx=dict(ctx))
                     perm = torch.as_tensor(cx["permutation"])
                     back = torch.empty_like(out)
                     back[:, perm] = out
